@@ -82,6 +82,7 @@ type FuncContract struct {
 	Trusted      bool // body not verified
 	TrustWhy     string
 	Layer1       bool
+	BridgeAlso   []string          // bridge-also: math/big methods a same-name BigInt wrapper may call besides the one of its own name
 	Invs         map[int][]*Clause // loop ordinal -> invariants
 	Decr         map[int]*Clause
 	LoopHints    map[int][]*Clause
@@ -466,7 +467,7 @@ var clauseKW = map[string]bool{
 	"func": true, "requires": true, "ensures": true, "assigns": true, "nilable": true, "fresh": true,
 	"trusted": true, "layer": true, "loop": true, "props": true, "define": true, "lemma": true,
 	"global": true, "outs": true, "operands": true, "defines": true, "hint": true, "pure": true,
-	"allocates": true, "sample": true, "reads": true, "posthint": true, "import": true, "unreachable": true, "exported": true, "axiom": true, "local": true, "reveal": true, "assert": true, "using": true, "delegates": true,
+	"allocates": true, "sample": true, "reads": true, "posthint": true, "import": true, "unreachable": true, "exported": true, "axiom": true, "local": true, "reveal": true, "assert": true, "using": true, "delegates": true, "bridge-also": true,
 }
 
 var tagRe = regexp.MustCompile(`^\{([A-Za-z0-9_,\- ]*)\}\s*`)
@@ -673,6 +674,12 @@ func ParseSpecFile(path string) (*Spec, error) {
 					cur.LocalAssume = map[string]*Clause{}
 				}
 				cur.LocalAssume[f[0]] = &Clause{Kind: "local-assume", E: mustExpr(ex, l.no), Src: ex, Name: why}
+			case "bridge-also":
+				for _, t := range strings.Split(rest, ",") {
+					if t = strings.TrimSpace(t); t != "" {
+						cur.BridgeAlso = append(cur.BridgeAlso, t)
+					}
+				}
 			case "sample":
 				// restricts the inputs of the run-time check / witness search only (never used by a proof)
 				cur.Sample = append(cur.Sample, &Clause{Kind: "sample", E: mustExpr(rest, l.no), Src: rest})
